@@ -7,15 +7,6 @@ use crate::verif_support::*;
 
 /*@@TABLES@@*/
 
-pub fn expected_count(k: usize) -> usize {
-    let p = pow4(k) as usize;
-    if k % 2 == 0 {
-        (p + pow4(k / 2) as usize) / 2
-    } else {
-        p / 2
-    }
-}
-
 fn canon_oracle(x: u64, k: usize) -> u64 {
     let r = rc_code_oracle(x, k);
     if x < r { x } else { r }
